@@ -143,6 +143,7 @@ fixed("C16", "C16-type-by-variable", "70087a8", "__type(name: $n) looked up the 
 fixed("C16", "C16-interface-possible-types", "cacf763", "possibleTypes of interfaces was null")
 fixed("C16", "C16-input-field-default", "baffcba", "defaultValue missing from inputFields")
 
+fixed("C14", "C14-cache-key-ignores-operation-type", "e7018ac", "history { both(x:1) } ; mutation { both(x:1) } on a caching planner: the second request was executed with the first one's plan (mutation sent as query)")
 # ----------------------------------------------------------------------------- C13
 known("C13", "C13-root-node-map-order", ["root-node"], r"^outcome depends on map iteration order / schedule: ",
       "for the root node() entry point the planner builds root steps by ranging over maps keyed by service URL (groupSelectionSetForNodeField innerRes / routeSelectionSet result); which service is asked, and therefore the answer, depends on the iteration order",
